@@ -51,7 +51,8 @@ def gen_tables(rng):
                 name = name + 'x'
             tracers.append({'name': name[:8], 'id': off + tid,
                             'scale': rng.choice([1.0, 1e9, 1e6, 1e12, 0.5]),
-                            'unit': rng.choice(['ppbv', 'ppbC', 'hPa', 'K', 'm']),
+                            'unit': rng.choice(['ppbv', 'ppbC', 'hPa', 'K', 'm', 'atoms C/cm2/s',
+                                                'kg C', 'molec/cm2/s', 'm2 / m2']),
                             'molwt': rng.choice([4.8e-2, 2.8e-2, 1.2e-2]),
                             'c': rng.choice([1, 1, 4]), 'cat': cname, 'tid': tid})
     return {'cats': [{'offset': o, 'category': c, 'comment': 'stub ' + c} for c, o in cats],
@@ -86,6 +87,15 @@ def gen_spec(rng):
         for b in blocks[1:]:
             b['start'] = [i0 + rng.randrange(0, 3), j0 + rng.randrange(0, 3),
                           rng.choice([1, 1, 2, 3])]
+    if len(blocks) >= 2 and rng.random() < 0.2:
+        # every data block carries its own dimensions: a later diagnostic is a
+        # zonal mean (NI = 1) or sits on a smaller window than the first block
+        b = rng.choice(blocks[1:])
+        if rng.random() < 0.6:
+            b['ni'] = 1
+        else:
+            b['ni'] = max(1, ni - 1)
+            b['nj'] = max(1, nj - rng.choice([0, 1]))
     permute = None
     if nt >= 2 and len(blocks) >= 2 and rng.random() < 0.2:
         # an irregular (still valid) file: one later time holds its data blocks
@@ -99,6 +109,8 @@ def gen_spec(rng):
             for b in blocks:
                 b['nl'] = blocks[0]['nl']
                 b.pop('start', None)
+                b.pop('ni', None)
+                b.pop('nj', None)
     return {'tables': tables, 'nt': nt, 'ni': ni, 'nj': nj, 'start': [i0, j0, 1],
             'blocks': blocks, 'permute': permute,
             # time bounds are 8-byte reals: hours that single precision cannot hold
@@ -115,9 +127,10 @@ def doc_of(spec):
     for t in range(spec['nt']):
         blocks = []
         for b in spec['blocks']:
-            n = b['nl'] * spec['nj'] * spec['ni']
+            bnj, bni = b.get('nj', spec['nj']), b.get('ni', spec['ni'])
+            n = b['nl'] * bnj * bni
             a = ((base + 0.25 * np.arange(n, dtype='f8')) * 1e-3).astype('f4').reshape(
-                b['nl'], spec['nj'], spec['ni'])
+                b['nl'], bnj, bni)
             base += 0.25 * n + 10.
             blocks.append({'category': b['cat'], 'tracer': b['tid'], 'unit': b['unit'],
                            'tau0': spec['tau0'] + t * spec['dtau'],
@@ -494,6 +507,14 @@ def apply(st, op):
         st.stats['pending_bytes_at_ack'] += abs(os.path.getsize(out) - os.path.getsize(ack))
     elif o == 'write_read':
         st.stats['write_reads'] += 1
+        if any('ni' in b or 'nj' in b for b in f['spec']['blocks']) and op.get('via') != 'reader':
+            # The reader names every tracer's horizontal dimensions after the first
+            # block's (latitude, longitude), so copy()/slice of such a file re-shapes a
+            # zonal mean to the full window before any writer runs: that is a question
+            # about copy fidelity, not about C18.  Files with per-block windows are
+            # written from the reader's own object only.
+            op = dict(op, via='reader')
+            w.probe('per_block_window_written_from_reader_object')
         try:
             g = _open(f['path'])
             if op.get('via') == 'copy64':
